@@ -98,12 +98,12 @@ theorem C03_launch_failure (s : State) (ph : Phase) (p : String) (ps : List Stri
 /-- the gate is armed with the number of extension files before anything is launched -/
 theorem C03_count_is_files (s : State) (ph : Phase) (hok : s.extFiles.length ≥ s.initFlow.extRegistered.arrived) :
     startInit s ph =
-      launchExtensions { (s.emit s!"ev initStart:{ph.str}") with
+      launchExtensions { (s.emitEv .initStart ph.str) with
           gen := s.gen + 1, rtDoneReg := false,
           initFlow := { s.initFlow with extRegistered := { s.initFlow.extRegistered with count := s.extFiles.length } } }
         ph s.extFiles := by
   have : ¬ (s.extFiles.length < s.initFlow.extRegistered.arrived) := by omega
-  simp [startInit, Latch.setCount, this, State.emit]
+  simp [startInit, Latch.setCount, this, State.emitEv]
 
 /-- **Single arrival.** Among all programs of an external extension the registration barrier is
     walked only by `register` from `Started`, and no program ever returns an agent to `Started`:
